@@ -23,6 +23,8 @@ pub struct AllocMachine<S: Spec> {
     batches: Vec<Vec<usize>>,
     routes: Vec<Route>,
     quiet_form: Option<usize>,
+    /// measure the owned canonical form (with a cloning baseline) instead of the by-reference form
+    use_owned: bool,
     r: S::R,
     pushed: Vec<usize>,
     done: bool,
@@ -42,7 +44,7 @@ pub fn quiet_form<S: Spec>(e: &Entry<S>) -> Option<usize> {
 }
 
 impl<S: Spec> AllocMachine<S> {
-    pub fn new(e: Entry<S>, max_prefix: usize, max_batch: usize) -> Self {
+    pub fn new(e: Entry<S>, max_prefix: usize, max_batch: usize, use_owned: bool) -> Self {
         // alphabet: the small values plus the first large one (a 300-element item where available)
         let mut values = e.values.clone();
         if let Some(l) = e.large.first() {
@@ -70,7 +72,7 @@ impl<S: Spec> AllocMachine<S> {
         routes.push(Route::MergeOne);
         routes.push(Route::MergeWithSelf);
         let quiet_form = quiet_form(&e);
-        AllocMachine { e, values, batches, routes, quiet_form, r: Default::default(), pushed: vec![], done: false, max_prefix, tags: vec![] }
+        AllocMachine { e, values, batches, routes, quiet_form, use_owned, r: Default::default(), pushed: vec![], done: false, max_prefix, tags: vec![] }
     }
 
     fn region_of(&self, ids: &[usize]) -> S::R {
@@ -84,7 +86,7 @@ impl<S: Spec> AllocMachine<S> {
 
 impl<S: Spec> Machine for AllocMachine<S> {
     fn name(&self) -> String {
-        format!("alloc/presized/{}", S::name())
+        format!("alloc/presized/{}/{}", if self.use_owned { "owned" } else { "by-ref" }, S::name())
     }
     fn reset(&mut self) {
         self.r = Default::default();
@@ -140,7 +142,12 @@ impl<S: Spec> Machine for AllocMachine<S> {
         let (ri, bi) = ((op - 1000) / nb, (op - 1000) % nb);
         let route = self.routes[ri as usize].clone();
         let ids = self.batches[bi as usize].clone();
-        let batch: Vec<S::V> = ids.iter().map(|i| self.values[*i].clone()).collect();
+        let mut batch: Vec<S::V> = ids.iter().map(|i| self.values[*i].clone()).collect();
+        if let Route::ReserveItems(f) = &route {
+            // forms that can only announce some items (arrays of one length) announce exactly those
+            let ann = self.e.reserve_forms[*f].announces;
+            batch.retain(|v| ann(v));
+        }
         let mut to_push: Vec<S::V> = Vec::new();
         // pre-size
         let pre = match route {
@@ -185,7 +192,20 @@ impl<S: Spec> Machine for AllocMachine<S> {
             return Step::Violation(format!("pre-sizing panicked: {p}"));
         }
         to_push.extend(batch);
-        let form = self.quiet_form.map(|f| self.e.forms[f].f);
+        // Two windows are explored per (state, route, batch): the by-reference form (the harness itself
+        // allocates nothing) and the owned canonical form, whose harness-side cost is exactly the
+        // cloning of the values and is measured separately as the baseline.
+        let owned_window = self.use_owned;
+        let form = if owned_window { None } else { self.quiet_form.map(|f| self.e.forms[f].f) };
+        let baseline = if owned_window {
+            let a0 = alloc_count::calls();
+            for v in &to_push {
+                std::hint::black_box(v.clone());
+            }
+            alloc_count::calls() - a0
+        } else {
+            0
+        };
         let before = caps(&self.r);
         let r = &mut self.r;
         let pushes = to_push.len();
@@ -203,7 +223,7 @@ impl<S: Spec> Machine for AllocMachine<S> {
                     }
                 }
             }
-            alloc_count::calls() - a0
+            (alloc_count::calls() - a0).saturating_sub(baseline)
         });
         let calls = match res {
             Ok(c) => c,
@@ -216,9 +236,11 @@ impl<S: Spec> Machine for AllocMachine<S> {
                 "capacities changed while pushing exactly the announced contents ({pushes} items): {before:?} -> {after:?}"
             ));
         }
-        if self.e.plain && form.is_some() && calls != 0 {
+        if self.e.plain && (form.is_some() || owned_window) && calls != 0 {
             return Step::Violation(format!(
-                "{calls} allocator calls while pushing exactly the announced plain-data contents ({pushes} items); capacities {before:?}"
+                "{calls} allocator calls{} while pushing exactly the announced plain-data contents ({pushes} items, {} form); capacities {before:?}",
+                if owned_window { " beyond cloning the inputs" } else { "" },
+                if owned_window { "owned" } else { "by-reference" }
             ));
         }
         self.tags.push(format!("route{}:batch{}:prefix{}", ri, ids.len(), self.pushed.len()));
@@ -236,22 +258,23 @@ impl<S: Spec> Machine for AllocMachine<S> {
 pub struct LogMachine<S: Spec> {
     e: Entry<S>,
     ns: Vec<usize>,
+    use_owned: bool,
     quiet_form: Option<usize>,
     done: bool,
     tags: Vec<String>,
 }
 
 impl<S: Spec> LogMachine<S> {
-    pub fn new(e: Entry<S>, max_log2: u32) -> Self {
+    pub fn new(e: Entry<S>, max_log2: u32, use_owned: bool) -> Self {
         let ns = (6..=max_log2).map(|k| 1usize << k).collect();
-        let quiet_form = quiet_form(&e);
-        LogMachine { e, ns, quiet_form, done: false, tags: vec![] }
+        let quiet_form = if use_owned { None } else { quiet_form(&e) };
+        LogMachine { e, ns, use_owned, quiet_form, done: false, tags: vec![] }
     }
 }
 
 impl<S: Spec> Machine for LogMachine<S> {
     fn name(&self) -> String {
-        format!("alloc/log/{}", S::name())
+        format!("alloc/log/{}/{}", if self.use_owned { "owned" } else { "by-ref" }, S::name())
     }
     fn reset(&mut self) {
         self.done = false;
@@ -285,6 +308,16 @@ impl<S: Spec> Machine for LogMachine<S> {
             .collect();
         let mut r: S::R = Default::default();
         let form = self.quiet_form.map(|f| self.e.forms[f].f);
+        // the owned canonical form clones in the harness: that cost is measured and subtracted
+        let baseline = if form.is_none() {
+            let a0 = alloc_count::calls();
+            for v in &seq {
+                std::hint::black_box((*v).clone());
+            }
+            alloc_count::calls() - a0
+        } else {
+            0
+        };
         let res = guard(|| {
             let a0 = alloc_count::calls();
             for v in &seq {
@@ -297,7 +330,7 @@ impl<S: Spec> Machine for LogMachine<S> {
                     }
                 }
             }
-            alloc_count::calls() - a0
+            (alloc_count::calls() - a0).saturating_sub(baseline)
         });
         let calls = match res {
             Ok(c) => c,
